@@ -35,7 +35,8 @@ func CreateUE(imsi string, ueNumber int, K string, OPC string, OP string) *tglib
 	}
 
 	ranUeNgapId := (parsedIMSI + ueNumber) % 1e4
-	supi := "imsi-" + imsi
+	// every UE gets its own SUPI: the configured IMSI advanced by the UE index, same number of digits
+	supi := "imsi-" + fmt.Sprintf("%0*d", len(imsi), parsedIMSI+ueNumber)
 
 	ue := tglib.NewRanUeContext(supi,
 		int64(ranUeNgapId),
